@@ -29,6 +29,8 @@ func init() {
 			"re-queue semantics.",
 		Run: runC19,
 		Mutants: []Mutant{
+			{Name: "k8s-debounce-timer-restarted-by-every-notification", File: "internal/k8s/controllers/frrk8s_config_controller.go",
+				Old: "\t\t\t\tif !timerSet {\n\t\t\t\t\ttimeOut = time.After(reloadInterval)\n\t\t\t\t\ttimerSet = true\n\t\t\t\t}\n", New: "\t\t\t\tif !timerSet || cap(in) == 0 {\n\t\t\t\t\ttimeOut = time.After(reloadInterval)\n\t\t\t\t\ttimerSet = true\n\t\t\t\t}\n", Expect: "armed-once-per-burst"},
 			{Name: "submit-after-unlock", File: "internal/bgp/frr/frr.go",
 				Old: "\tsm.Lock()\n\tdefer sm.Unlock()\n\tsm.extraConfig = extraInfo\n\tfrrConfig, err := sm.createConfig()\n", New: "\tsm.Lock()\n\tsm.extraConfig = extraInfo\n\tfrrConfig, err := sm.createConfig()\n\tsm.Unlock()\n", Expect: "SUBMIT-UNDER-LOCK"},
 			{Name: "create-not-found-not-retried", File: "internal/k8s/controllers/frrk8s_config_controller.go",
@@ -1035,6 +1037,19 @@ func c19K8s(p *chk.Prog, r *chk.Report) {
 					okOut = !w1.Found && !w2.Found
 				}
 				ok = (ts != nil || toObj != nil) && okArm && okOut
+				// the timer is started by the first notification of a burst and left alone by the following ones: a timer
+				// restarted on every notification never fires while notifications keep coming
+				notArmed := chk.GBool(false, isTS)
+				if toObj != nil {
+					notArmed = g.GExprNil(true, lf.IsObj(toObj))
+				}
+				okOnce := true
+				for _, s := range g.Find(lf.IsAssignPat("TO", "time.After(D)", chk.H("D", isInterval))) {
+					if chk.Encloses(recv, s.Node) && !g.Dominated(s, notArmed) {
+						okOnce = false
+					}
+				}
+				x.Check("controllers.debouncer:armed-once-per-burst", recv.Pos(), okOnce, "", "the frr-k8s debouncer restarts its timer on a notification that arrives while the timer is running: under a steady stream of configuration changes the reconcile event is postponed for ever")
 			}
 		}
 		x.Check("controllers.debouncer:arm-and-emit", df.Pos(), ok, "", "the frr-k8s debouncer does not arm a timer for every burst and emit one reconcile event (clearing the flag) when it fires")
